@@ -1,6 +1,7 @@
 package main
 
 import (
+	"time"
 	"encoding/json"
 	"fmt"
 	"io/ioutil"
@@ -242,4 +243,28 @@ func doReplay(path string) int {
 	}
 	fmt.Printf("REPLAY property=%s kind=%s: property FAILS on this input: %s\n", r.Property, r.Kind, detail)
 	return 1
+}
+
+// hangWait waits for done with a short deadline; when the deadline passes it keeps waiting up to a
+// generous confirmation limit before the caller may call the behaviour a hang, so that a loaded
+// machine does not turn a slow call into a false alarm. After a few confirmed hangs in one run the
+// confirmation is skipped (the violation is established; only the run time would grow).
+var confirmedHangs int
+
+func hangWait(done <-chan string, short time.Duration) (string, bool) {
+	select {
+	case r := <-done:
+		return r, true
+	case <-time.After(short):
+	}
+	if confirmedHangs >= 3 {
+		return "", false
+	}
+	select {
+	case r := <-done:
+		return r, true
+	case <-time.After(10 * time.Second):
+		confirmedHangs++
+		return "", false
+	}
 }
